@@ -485,3 +485,37 @@ def replay(pid, art):
     a = json.load(open(art))
     ok, _art, detail = replay_values(pid, a["kind"], a["local_ns"], a["base_ms"])
     return bool(ok), detail
+
+
+class C02LengthLemma:
+    """Arithmetic instantiation of the C02 length bound for the production limits, over ALL lengths below 2^48
+    (mathematical integers): a canonical encoding has one 1-byte header, and every chunk after the first costs a
+    2-byte header.  A chunk closed by a stuff sequence drops those 2 input bytes (net 0); a chunk closed by its
+    size limit costs 2 net bytes.  The first chunk can be size-closed at 252 bytes, later ones every 64008 bytes:
+        closed(len) = 0                                   if len < 252
+                    = 1 + floor((len - 252) / 64008)      otherwise
+    and the claim is len + 1 + 2*closed(len) <= len + 1 + 2*ceil(len / 64008).
+    The limits 252 / 64008 are tied to the code by the prod_limits harness (Engine K)."""
+    name = "c02::length_bound_production_limits[smt]"
+
+    def run(self, logdir):
+        t0 = time.time()
+        q = Queries(logdir, "c02-len")
+        decls = ["(declare-const len Int)", "(declare-const closed Int)", "(declare-const ceilq Int)"]
+        base = ["(>= len 0)", "(< len 281474976710656)",
+                "(= closed (ite (< len 252) 0 (+ 1 (div (- len 252) 64008))))",
+                "(= ceilq (div (+ len 64007) 64008))"]
+        a, ans, model, path = q.ask("bound", decls, base + ["(> (+ len 1 (* 2 closed)) (+ len 1 (* 2 ceilq)))"])
+        w, _, wm, _ = q.ask("tight", decls, base + ["(= closed ceilq)", "(> len 200000)"])
+        status = "PASS" if a == "unsat" and w == "sat" else ("VIOLATION" if a == "sat" else "INCONCLUSIVE")
+        r = result(self.name, status, reason="" if status == "PASS" else json.dumps(ans), checks_total=2, checks_nontrivial=2,
+                   checks_ok=int(a == "unsat") + int(w == "sat"), queries=q.n, solver_s=q.solver_s,
+                   functions=["(arithmetic lemma over the canonical chunking; constants pinned to hcobs::PROD_PARAMS by kani/hcobs prod::prod_limits_are_252_and_64008)"],
+                   bounds="all input lengths 0 <= len < 2^48, mathematical integers",
+                   covers={"the bound is tight for some len > 200000": "SATISFIED" if w == "sat" else "UNSATISFIABLE"},
+                   samples=[{"query": "bound is tight", "model": mir.model_values(wm)}] if w == "sat" else [],
+                   failed=[{"desc": "length bound lemma fails", "model": mir.model_values(model)}] if a == "sat" else [],
+                   wall=time.time() - t0)
+        if status == "VIOLATION":
+            r["reproduced"], r["artifact"], r["detail"] = None, path, "arithmetic lemma (no native replay)"
+        return [r]
